@@ -2,8 +2,10 @@ package engc
 
 import (
 	"fmt"
+	"sort"
 	"strings"
 
+	"verif/sim/internal/progen"
 	"verif/sim/internal/world"
 )
 
@@ -104,5 +106,74 @@ func (s *sim) checkNextToGen(idx int, st Step, fr *freshResult, okT, badT, typeE
 		return ""
 	}
 	s.judgeCheckShow(cst, res, stderr, fr, okT, badT, typeErrT, badSet, nil)
+	return ""
+}
+
+// composition: the statement's condition for check is a conjunction over the named
+// packages, and show lists the sets and injectors of the named packages - so one
+// invocation over several packages must agree with the invocations over each of them
+// alone, ON THE SAME TREE. No label is involved; what it exposes is state that one
+// package leaves behind for the next inside one Load (a shared object cache, memo
+// tables, visited sets).
+func (s *sim) composition(idx int, st Step, T []string, res *world.Result) string {
+	anyFail := false
+	union := map[string]progen.SetModel{}
+	var unionInj []string
+	allOK := true
+	for _, n := range T {
+		one := Step{Op: "cmd", Cmd: st.Cmd, Patterns: []string{"./" + n}, Tags: st.Tags}
+		r := s.w.Exec(s.e.B.WireSim, s.w.AppDir, &world.Plan{Seed: uint64(idx + 900), Iter: "asc", Clock: 1600000000, Pid: 55, Host: "one"}, s.scratch, nil, s.argv(one, s.w)...)
+		s.e.Stats.Commands.Add("alone:"+st.Cmd, 1)
+		if r.TimedOut {
+			return "watchdog: " + st.Cmd + " of one package timed out"
+		}
+		if strings.Contains(r.Stderr, "panic: ") {
+			return ""
+		}
+		if r.Exit != 0 {
+			anyFail = true
+			allOK = false
+		}
+		if st.Cmd == "show" && r.Exit == 0 {
+			sets, inj := progen.ParseShow(r.Stdout)
+			for k, v := range sets {
+				union[k] = v
+			}
+			unionInj = append(unionInj, inj...)
+		}
+	}
+	if anyFail != (res.Exit != 0) {
+		s.violate("C19", "A3", st.Cmd+"/several-packages-disagree-with-each-alone", fmt.Sprintf("fails exactly when it fails for one of %v alone (that is: %v)", T, anyFail), fmt.Sprintf("exit %d", res.Exit), st.String())
+		return ""
+	}
+	s.e.Stats.Counts.Add("composition_"+st.Cmd+"_status_agrees", 1)
+	if st.Cmd == "show" && allOK && res.Exit == 0 {
+		got, gotInj := progen.ParseShow(res.Stdout)
+		sort.Strings(unionInj)
+		var diffs []string
+		for k, w := range union {
+			g, ok := got[k]
+			switch {
+			case !ok:
+				diffs = append(diffs, "missing "+k)
+			case fmt.Sprint(nonNil(w.Imports)) != fmt.Sprint(nonNil(g.Imports)) || !sameGroups(w.Groups, g.Groups):
+				diffs = append(diffs, "differs "+k)
+			}
+		}
+		for k := range got {
+			if _, ok := union[k]; !ok {
+				diffs = append(diffs, "extra "+k)
+			}
+		}
+		if fmt.Sprint(nonNil(unionInj)) != fmt.Sprint(nonNil(gotInj)) {
+			diffs = append(diffs, fmt.Sprintf("injectors %v vs %v", gotInj, unionInj))
+		}
+		sort.Strings(diffs)
+		if len(diffs) > 0 {
+			s.violate("C19", "A3", "show/several-packages-differ-from-the-union-of-each-alone", "the sets and injectors shown for each package alone", strings.Join(diffs, "; "), st.String())
+		} else {
+			s.e.Stats.Counts.Add("composition_show_structure_agrees", 1)
+		}
+	}
 	return ""
 }
